@@ -7,6 +7,7 @@
 #include <OpenVolumeMesh/Core/Handles.hh>
 
 #include <cassert>
+#include <algorithm>
 #include <limits>
 #include <numeric>
 #include <iostream>
@@ -221,14 +222,20 @@ void BinaryFileReader::read_faces(Decoder &reader, const TopoChunkHeader &header
     if (!validate_span(file_header_.n_faces, n_faces_read_, header.span))
         return;
 
-    if (file_header_.topo_type == TopoType::Tetrahedral && header.valence != 3) {
+    // the valences may be given once for the chunk or as a list, one per entity
+    auto all_valences_are = [&](uint32_t _want) {
+        if (header.valence != 0) return header.valence == _want;
+        return std::all_of(_valences.begin(), _valences.end(),
+                           [&](auto _v) {return static_cast<uint32_t>(_v) == _want;});
+    };
+    if (file_header_.topo_type == TopoType::Tetrahedral && !all_valences_are(3)) {
         state_ = ReadState::ErrorInvalidTopoType;
-        error_msg_ = "TOPO chunk: Faces of tetrahedral meshes must have a fixed valence of 3";
+        error_msg_ = "TOPO chunk: Faces of tetrahedral meshes must have valence 3";
         return;
     }
-    if (file_header_.topo_type == TopoType::Hexahedral && header.valence != 4) {
+    if (file_header_.topo_type == TopoType::Hexahedral && !all_valences_are(4)) {
         state_ = ReadState::ErrorInvalidTopoType;
-        error_msg_ = "TOPO chunk: Faces of hexahedral meshes must have a fixed valence of 4";
+        error_msg_ = "TOPO chunk: Faces of hexahedral meshes must have valence 4";
         return;
     }
     assert(header.valence != 0 || _valences.size() == header.span.count);
@@ -270,15 +277,20 @@ void BinaryFileReader::read_cells(Decoder &reader, const TopoChunkHeader &header
     if (!validate_span(file_header_.n_cells, n_cells_read_, header.span))
         return;
 
-    if (file_header_.topo_type == TopoType::Tetrahedral && header.valence != 4) {
+    auto all_valences_are = [&](uint32_t _want) {
+        if (header.valence != 0) return header.valence == _want;
+        return std::all_of(_valences.begin(), _valences.end(),
+                           [&](auto _v) {return static_cast<uint32_t>(_v) == _want;});
+    };
+    if (file_header_.topo_type == TopoType::Tetrahedral && !all_valences_are(4)) {
         state_ = ReadState::ErrorInvalidTopoType;
-        error_msg_ = "TOPO chunk: Cells of tetrahedral meshes must have a fixed valence of 4";
+        error_msg_ = "TOPO chunk: Cells of tetrahedral meshes must have valence 4";
         return;
     }
 
-    if (file_header_.topo_type == TopoType::Hexahedral && header.valence != 6) {
+    if (file_header_.topo_type == TopoType::Hexahedral && !all_valences_are(6)) {
         state_ = ReadState::ErrorInvalidTopoType;
-        error_msg_ = "TOPO chunk: Cells of hexahedral meshes must have a fixed valence of 6";
+        error_msg_ = "TOPO chunk: Cells of hexahedral meshes must have valence 6";
         return;
     }
 
